@@ -211,8 +211,43 @@ def w(fn):
     return f
 
 
+def check_other_thread(ctx):
+    size = 1 << 32
+    bx = ctx.sandbox_base(32, "bx", aligned=False)
+    by = ctx.sandbox_base(32, "by", aligned=False)
+    ctx.assume(z3.Or(z3.UGE(bx, by + BV(size, 64)), z3.UGE(by, bx + BV(size, 64))))
+    celly = ctx.sym("celly", 64)
+    v = ctx.sym("v", 64)
+    op = ctx.sym("op", 32)
+    yf = ctx.sym("y_first", 32)
+    when = ctx.sym("when", 32)
+    ctx.assume(z3.UGE(celly, by), z3.ULE(celly - by, BV(size - 4, 64)), z3.Or(v == 0, z3.And(z3.UGT(v, by), z3.ULT(v - by, BV(size, 64)))))
+    ctx.assume(z3.ULE(op, 3), z3.ULE(yf, 1), z3.ULE(when, 5))
+    paths = ctx.run("k_bm_other_thread", [bx, by, celly, v, op, yf, when])
+    ran = 0
+    for q in paths:
+        lg = q.user.get("log") or []
+        l4 = [e for e in lg if e[0] == 4]
+        if q.status != "ret":
+            ctx.fail(q, "thread B's translation in its own live sandbox, run at synchronisation point %s of thread A's operation, ended %s (%s)"
+                        % ([e[1] for e in l4], q.status, q.info))
+            continue
+        if l4:
+            ran += 1
+            l1 = [e for e in lg if e[0] == 1]
+            l3 = [e for e in lg if e[0] == 3]
+            as_bv = lambda t: BV(t, 64) if isinstance(t, int) else t
+            ctx.require(q, z3.And(as_bv(l1[0][1]) == C04.rep_of(v, by, 32), as_bv(l3[0][1]) == v) if l1 and l3 else z3.BoolVal(False),
+                        "at every synchronisation point of another thread's create/destroy, a thread's pointer is translated relative to its own sandbox")
+    if ran < 4:
+        ctx.inconclusive.append("thread B ran on %d paths only" % ran)
+    ctx.expect(paths, ret=4)
+
+
 def jobs(tier, seed):
     out = []
+    out.append(Job("C18_BM_other_thread", '#include "C18_interleave.inc"\n', [dict(name="another thread translates at each synchronisation point of create/destroy", fn=check_other_thread, unwind=200)],
+                   native=False))
     src = '#include "C04_bm.inc"\n'
     for k in ("k_bm_store_load", "k_bm_load"):
         out.append(Job("C18_BM_" + k, src, [dict(name="lock discipline + non-interference " + k, fn=w(check_bm_discipline), kw=dict(k=k), unwind=200)], native=False))
